@@ -3,7 +3,20 @@ import itertools
 import z3
 from . import types as ty
 
-_counter = itertools.count()
+class _Counter:
+    def __init__(self):
+        self.n = 0
+
+    def __next__(self):
+        self.n += 1
+        return self.n
+
+
+_counter = _Counter()
+
+
+def counter_value():
+    return _counter.n
 
 
 def fresh_name(prefix):
